@@ -583,7 +583,45 @@ def check_error_kind(run, fx):
     run.exhaustive_tables.append("ErrorKind")
 
 
+def check_wide_integer_encoding(run, fx):
+    """the one place where the FFI layer does arithmetic of its own on a value: the 128-bit epoch nanoseconds are split
+    into two 64-bit halves.  `returns exactly what the core method returns` needs the split to lose nothing."""
+    rule = "R1.ffi-wide-integer-encoding-injective"
+    run.rule(rule, "Instant::epoch_nanoseconds of the FFI layer encodes different instants differently: folded on the sign "
+                   "pairs (x, -x) for a magnitude below and one above the 64-bit boundary (the only case distinctions the "
+                   "split makes: sign, `>> 64`, `& u64::MAX`), the two encodings of a pair must differ")
+    capi = fx["temporal_capi"]
+    enc = capi.fn1("instant::ffi::Instant::epoch_nanoseconds")
+    if enc is None:
+        run.anchor_missing(rule, "epoch_nanoseconds", "ffi Instant::epoch_nanoseconds not found")
+        return
+
+    def encode(x):
+        ev = H.Evaluator(fx)
+        ev.inline = lambda p: True
+        me = H.V("temporal_capi::instant::ffi::Instant",
+                 (H.V("temporal_rs::builtins::core::instant::Instant", (H.V("temporal_rs::epoch_nanoseconds::EpochNanoseconds", (x,)),)),))
+        try:
+            r = ev.call_fn(enc, [me])
+        except (H.Panic, H.Budget):
+            return None
+        if isinstance(r, H.S) and all(isinstance(v, int) for _, v in r.fields):
+            return tuple(r.fields)
+        return None
+    for name, x in (("below-2^64", 1), ("above-2^64", 2 ** 64 + 5)):
+        a, b = encode(x), encode(-x)
+        if a is None or b is None:
+            run.ok(rule, name, "the encoder does not fold to constants: not decided", enc.loc, nontrivial=False)
+            continue
+        run.check(a != b, rule, name, "%d -> %s, %d -> %s" % (x, dict(a), -x, dict(b)),
+                  "Instant::epoch_nanoseconds encodes %d ns and %d ns identically as %s: the sign is carried by the high half "
+                  "only, which is zero for every instant within 2^64 ns (584 years) of the epoch, so every such instant before "
+                  "1970 reads back as its mirror image after 1970" % (x, -x, dict(a)), enc.loc)
+    run.exhaustive_tables.append("I128Nanoseconds split (2 signs x 2 magnitude classes)")
+
+
 def run_checks(run, fx):
+    check_wide_integer_encoding(run, fx)
     ev = H.Evaluator(fx)
     ev.inline = lambda p: False
     check_bridge(run, fx, ev)
